@@ -78,7 +78,7 @@ theorem task_pipeline (env : Env) (fuel : Nat) (states : Json) (name fn : Str)
     (hr : rpcFunction ((fldStr state "Resource").getD []) = some fn)
     (hi : applyPath data ctx (pathArg state "InputPath") = .ok input)
     (hp : tmplOpt env input ctx (fld state "Parameters") = .ok params)
-    (hv : decodeReply (env.task fn params (bump st.counts (fn, params)).1) = .ok v)
+    (hv : taskReply env.maxData (env.task fn params (bump st.counts (fn, params)).1) = .ok v)
     (hs : tmplOpt env v ctx (fld state "ResultSelector") = .ok result)
     (hm : mergeResult data ctx result state = .ok out) :
     runState env (fuel + 1) states name state data ctx retries st =
@@ -91,6 +91,17 @@ theorem task_pipeline (env : Env) (fuel : Nat) (states : Json) (name fn : Str)
   have h5 : (S "Task" = S "Choice") = False := by decide
   simp [runState, h, h1, h2, h3, h4, h5, hr, hi, hp, hv, hs, hm]
 
+/-- a worker's reply whose text is longer than the size limit is the error `States.DataLimitExceeded`,
+whatever it says; a reply within the limit is read by `decodeReply` -/
+theorem oversize_reply_is_data_limit_error (maxData : Nat) (r : Json) (h : (render r).length > maxData) :
+    taskReply maxData r = .err (S "States.DataLimitExceeded") (S "m") := by
+  simp [taskReply, h]
+
+theorem reply_within_limit_is_decoded (maxData : Nat) (r : Json) (h : (render r).length ≤ maxData) :
+    taskReply maxData r = decodeReply r := by
+  have : ¬ (render r).length > maxData := by omega
+  simp [taskReply, this]
+
 /-- a failing task hands its error to the state's Retry/Catch with the state's raw input -/
 theorem task_error_goes_to_handler (env : Env) (fuel : Nat) (states : Json) (name fn : Str)
     (state data ctx input params : Json) (e msg : Str) (retries : Nat) (st : St)
@@ -98,7 +109,7 @@ theorem task_error_goes_to_handler (env : Env) (fuel : Nat) (states : Json) (nam
     (hr : rpcFunction ((fldStr state "Resource").getD []) = some fn)
     (hi : applyPath data ctx (pathArg state "InputPath") = .ok input)
     (hp : tmplOpt env input ctx (fld state "Parameters") = .ok params)
-    (hv : decodeReply (env.task fn params (bump st.counts (fn, params)).1) = .err e msg) :
+    (hv : taskReply env.maxData (env.task fn params (bump st.counts (fn, params)).1) = .err e msg) :
     runState env (fuel + 1) states name state data ctx retries st =
       handleErr env fuel states name state data ctx retries e msg
         { st with counts := (bump st.counts (fn, params)).2 } := by
@@ -125,9 +136,9 @@ theorem fanout_failure_goes_to_handler (env : Env) (fuel : Nat) (states : Json) 
     (state data ctx : Json) (e : Str) (c : Option Json) (f : Bool) (retries : Nat) (st : St) :
     ∃ msg, joinAndLeave env (fuel + 1) states name state data ctx retries (.error (.failed e c f)) st =
       handleErr env fuel states name state data ctx retries e msg st := by
-  cases c with
-  | none => exact ⟨[], by simp [joinAndLeave]⟩
-  | some c => exact ⟨S "m", by simp [joinAndLeave]⟩
+  cases h : isTrue c with
+  | false => exact ⟨[], by simp [joinAndLeave, h]⟩
+  | true => exact ⟨S "m", by simp [joinAndLeave, h]⟩
 
 /-- branch `b`, started at its StartAt on `params`, ran to completion with output `v` -/
 def BranchRan (env : Env) (params ctx b v : Json) : Prop :=
@@ -340,6 +351,7 @@ example : (run envK 10 aslPass (.obj []) (.obj [])).status = S "SUCCEEDED" ∧
 
 private def failSt : Json := .obj [(k "Type", .str (k "Fail")), (k "Error", .str (k "E1"))]
 example : stateType failSt = S "Fail" := by decide
+example : (render (.str (k "0123456789"))).length > 10 ∧ (render (.num 5)).length ≤ 10 := by decide
 example : isTrue (fld passEnd "End") = true := by decide
 
 private def par : Json := .obj [(k "StartAt", .str (k "A")), (k "States", .obj [(k "A",
